@@ -155,18 +155,43 @@ def _judge_other_kind(out, table, scope, between):
     return 'scope @@property permits property snippets only, got %r' % (out,)
 
 
-def check_key(syntax, scope, key):
+_CONVERTED = {}
+
+
+def _expand_key(syntax, scope, key, table, between, after, cache=None):
     from emmet import expand
-    table, between, after = _table(syntax)
     body = table[key]
     kind = classify(body)[0]
-    out = expand(key, _config(syntax, scope))
+    out = expand(key, _config(syntax, scope, cache=cache))
     if _permitted(kind, scope):
         err = judge_own(out, body, between, after)
     else:
         err = _judge_other_kind(out, table, scope, between)
     if err:
         return 'expand(%r, syntax=%s, scope=%s) for snippet %r: %s' % (key, syntax, scope, body, err)
+    return None
+
+
+def check_key_scoped(syntax, key):
+    """one key under the three context scopes (one parse of the snippet table, shared through a case-local `cache`)"""
+    table, between, after = _table(syntax)
+    cache = {}
+    errs = []
+    for scope in SCOPES[1:]:
+        try:
+            err = _expand_key(syntax, scope, key, table, between, after, cache)
+        except Exception as e:
+            err = 'expand(%r, syntax=%s, scope=%s) raised %s: %s' % (key, syntax, scope, type(e).__name__, e)
+        if err:
+            errs.append(err)
+    return ' | '.join(errs) or None
+
+
+def check_key(syntax, scope, key):
+    table, between, after = _table(syntax)
+    err = _expand_key(syntax, scope, key, table, between, after)
+    if err:
+        return err
     if scope is None:
         # "and no other": the search stops at the first item scoring exactly 1 -- only the key itself may do so
         from emmet.stylesheet.score import calculate_score
@@ -174,13 +199,15 @@ def check_key(syntax, scope, key):
         for other in table:
             if other != key and calculate_score(key, other, True) == 1:
                 return 'key %r is a direct hit (score 1) for the different key %r' % (key, other)
-        hit = find_best_match(key, convert_snippets(table), 0, True)
+        if syntax not in _CONVERTED:
+            _CONVERTED[syntax] = convert_snippets(table)       # per process; the search does not write to it
+        hit = find_best_match(key, _CONVERTED[syntax], 0, True)
         if hit is None or hit.key != key:
             return 'find_best_match(%r) over the whole table selects %r' % (key, hit and hit.key)
     return None
 
 
-def check_keywords(syntax, scope, key):
+def check_keywords(syntax, key):
     from emmet import expand
     table, between, after = _table(syntax)
     kind = classify(table[key])
@@ -191,7 +218,7 @@ def check_keywords(syntax, scope, key):
     cache = {}
     for w in words + funcs:
         for typed in case_variants(w):
-            for sep in (':', '-'):
+            for sep, scope in ((':', None), ('-', None), (':', '@@property'), ('-', '@@property')):
                 abbr = key + sep + typed
                 out = expand(abbr, _config(syntax, scope, cache=cache))
                 if w in words:
@@ -346,19 +373,18 @@ def run(tier, seed):
 
     c = Clause('builtin-keys-scoped', 'F', 'every key of Config({type: stylesheet, syntax: s}).snippets under a context scope',
                '%d keys x syntaxes %r x scopes %r' % (nkeys, STYLESHEET_SYNTAXES, SCOPES[1:]),
-               'a case is (syntax, scope, key): as builtin-keys when the scope permits the kind of the key\'s snippet (@@global: all, '
-               '@@section: raw, @@property: property snippets); otherwise the output is empty or a snippet of the permitted kind',
-               exhaustive=True)
-    run_parallel(c, 'bounded.c06', 'check_key', ((s, sc, k) for s in STYLESHEET_SYNTAXES for sc in SCOPES[1:] for k in bk[s]), chunk=40)
+               'a case is (syntax, key), the three scopes checked inside (all failing scopes are reported): as builtin-keys when the scope '
+               'permits the kind of the key\'s snippet (@@global: all, @@section: raw, @@property: property snippets); otherwise the '
+               'output is empty or a snippet of the permitted kind', exhaustive=True)
+    run_parallel(c, 'bounded.c06', 'check_key_scoped', ((s, k) for s in STYLESHEET_SYNTAXES for k in bk[s]), chunk=40)
     out.append(c.done())
 
     c = Clause('builtin-keywords', 'F', 'every property snippet of the built-in table, every dash-free keyword it lists (one-word '
                'alternatives and function names)', 'x case variants {as listed, lower, UPPER, Capitalized, aLtErNaTiNg} x forms '
                '`key:kw`, `key-kw` x syntaxes %r x scopes [none, @@property]' % (STYLESHEET_SYNTAXES,),
-               'a case is (syntax, scope, key) with all keyword x case x form expansions checked inside: the value must be the keyword '
+               'a case is (syntax, key) with all keyword x case x form x scope expansions checked inside: the value must be the keyword '
                'as listed (a function name: `name(`...)', exhaustive=True)
-    run_parallel(c, 'bounded.c06', 'check_keywords', ((s, sc, k) for s in STYLESHEET_SYNTAXES for sc in (None, '@@property') for k in bk[s]),
-                 chunk=20)
+    run_parallel(c, 'bounded.c06', 'check_keywords', ((s, k) for s in STYLESHEET_SYNTAXES for k in bk[s]), chunk=20)
     out.append(c.done())
 
     osyn = ['css', 'stylus'] if quick else STYLESHEET_SYNTAXES
